@@ -885,3 +885,37 @@ func (g *Gen) zeroShareProgram() *GProgram {
 	}
 	return g.prog
 }
+
+// saveAllDebt: an account in debt is "emptied" by `save [A *]` (a negative balance is not raised by a
+// save), then receives funds and is drawn: what it can give depends on the debt it still has.
+func (g *Gen) saveAllDebtProgram() *GProgram {
+	asset := "USD"
+	g.asset = asset
+	debt := int64(1 + g.r.Intn(40))
+	g.bal["a"] = map[string]*big.Int{asset: bi(-debt)}
+	g.bal["b"] = map[string]*big.Int{asset: bi(int64(g.r.Intn(30)))}
+	if g.r.Chance(1, 4) {
+		g.bal["a"][asset] = bi(int64(g.r.Intn(20))) // a control: nothing owed
+	}
+	g.prog.Stmts = append(g.prog.Stmts, &GStmt{Kind: StSave, Sent: &GSent{All: true, E: &GExpr{Kind: XAsset, S: asset}}, Acct: acct("a")})
+	credit := int64(g.r.Intn(60))
+	if g.r.Chance(3, 4) {
+		g.prog.Stmts = append(g.prog.Stmts, &GStmt{Kind: StSend, Sent: &GSent{E: lit(asset, bi(credit))}, Src: srcAcct("world"), Dst: dstAcct("a")})
+	}
+	n := bi(int64(1 + g.r.Intn(40)))
+	var src *GSource
+	switch g.r.Intn(3) {
+	case 0:
+		src = srcAcct("a")
+	case 1:
+		src = &GSource{Kind: SrcInorder, Subs: []*GSource{srcAcct("a"), srcAcct("b")}}
+	default:
+		src = &GSource{Kind: SrcOverdraft, E: acct("a"), Bounded: lit(asset, bi(int64(g.r.Intn(50))))}
+	}
+	sent := &GSent{E: lit(asset, n)}
+	if g.r.Chance(1, 4) {
+		sent = &GSent{All: true, E: &GExpr{Kind: XAsset, S: asset}}
+	}
+	g.prog.Stmts = append(g.prog.Stmts, &GStmt{Kind: StSend, Sent: sent, Src: src, Dst: dstAcct("c")})
+	return g.prog
+}
